@@ -253,12 +253,14 @@ type pubInfo struct {
 	relSave *sim.StoreOp // successful Save of the PUBREL
 	del     *sim.StoreOp // successful Delete
 	stored  []byte       // the PUBLISH packet as stored
+	ord     int          // position in the save order of its level
 }
 
 type pubAnalysis struct {
 	ep    *Episode
 	pubs  map[int]*pubInfo // by marker number
 	byKey map[uint][]*pubInfo
+	order [3][]*pubInfo // by level, in order of the first Save attempt
 	out   [][]*wire.Packet // per connection
 	in    [][]*wire.Packet
 	viol  []pv
@@ -342,6 +344,8 @@ func analyzePubs(ep *Episode, allPubs []*sim.Pub, final bool) *pubAnalysis {
 					pi.saveTry = op
 					pi.key = op.Key
 					a.byKey[op.Key] = append(a.byKey[op.Key], pi)
+					pi.ord = len(a.order[pi.pub.Level])
+					a.order[pi.pub.Level] = append(a.order[pi.pub.Level], pi)
 				}
 				if !op.Err && pi.save == nil {
 					pi.save = op
@@ -379,6 +383,25 @@ func analyzePubs(ep *Episode, allPubs []*sim.Pub, final bool) *pubAnalysis {
 		}
 	}
 
+	// an identifier is not given to another message while still in use
+	for key, owners := range a.byKey {
+		for i, pi := range owners {
+			if pi.save == nil {
+				continue
+			}
+			for _, prev := range owners[:i] {
+				if prev.save != nil && (prev.del == nil || prev.del.RetSeq > pi.save.CallSeq) {
+					prop := "C17"
+					if pi.pub.Level == 2 {
+						prop = "C03"
+					}
+					a.violate(prop, "identifier-reused-in-flight", "record %#x was given to message %d at #%d while message %d still held it", key, pi.pub.N, pi.save.CallSeq, prev.pub.N)
+					a.violate("C17", "identifier-reused-in-flight", "record %#x was given to message %d at #%d while message %d still held it", key, pi.pub.N, pi.save.CallSeq, prev.pub.N)
+				}
+			}
+		}
+	}
+
 	// wire logs
 	for _, c := range w.Conns {
 		pk, _, err := wire.ParseStream(c.Out, true)
@@ -404,9 +427,13 @@ func analyzePubs(ep *Episode, allPubs []*sim.Pub, final bool) *pubAnalysis {
 			}
 		}
 	}
+	finalsByID := map[uint16][]int64{}
+	for _, f := range finals {
+		finalsByID[f.id] = append(finalsByID[f.id], f.seq)
+	}
 	finalBetween := func(id uint16, from, to int64) bool {
-		for _, f := range finals {
-			if f.id == id && f.seq > from && f.seq < to {
+		for _, seq := range finalsByID[id] {
+			if seq > from && seq < to {
 				return true
 			}
 		}
@@ -542,14 +569,31 @@ func (a *pubAnalysis) checkWire() {
 		gen      int
 	}
 	writes := map[int][]wr{}
+	var adopts []sim.Event
+	for _, e := range w.Trace {
+		if e.Kind == "adopt" {
+			adopts = append(adopts, e)
+		}
+	}
 	genAt := func(seq int64) int {
 		g := 0
-		for _, e := range w.Trace {
-			if e.Kind == "adopt" && e.Seq <= seq {
+		for _, e := range adopts {
+			if e.Seq <= seq {
 				g = e.N
 			}
 		}
 		return g
+	}
+
+	// A Write call that failed without accepting a byte right at the end of a
+	// packet leaves the caller unable to know that the packet was complete
+	// (empty payload buffer written after the header): either DUP value.
+	type connOff struct{ conn, off int }
+	failedAt := map[connOff]bool{}
+	for _, e := range w.Trace {
+		if e.Kind == "write" && e.Err != "" && e.N == 0 {
+			failedAt[connOff{e.Conn, e.Off}] = true
+		}
 	}
 
 	firstSeen := map[int]bool{}
@@ -649,7 +693,7 @@ func (a *pubAnalysis) checkWire() {
 			case !p.Dup && prior && !priorPartial:
 				a.violate("C05", "retransmission-without-dup", "conn %d: retransmission of completely written message %d lacks DUP", c.Idx, pi.pub.N)
 			}
-			writes[pi.pub.N] = append(writes[pi.pub.N], wr{seq: end, complete: true, gen: g})
+			writes[pi.pub.N] = append(writes[pi.pub.N], wr{seq: end, complete: !failedAt[connOff{c.Idx, p.Offset + len(p.Raw)}], gen: g})
 		}
 		// an incomplete trailing PUBLISH counts as partial write
 		used := 0
